@@ -73,7 +73,7 @@ def plan(tier):
 def required(tier):
     return ["post:biccs", "post:all_components", "post:dfs", "exhaustive_connected_graphs",
             "history_ops", "invariant_evals", "biccs_with_artic", "multigraph_cases", "query_after_query",
-            "graphs_loaded_from_file", "file_without_final_newline"]
+            "graphs_loaded_from_file", "file_without_final_newline", "edits_without_query_between"]
 
 
 # -- model ------------------------------------------------------------------------------------
@@ -426,6 +426,7 @@ def run_history(rng, viol, situations):
     ops = []
     nops = rng.randint(1, 60)
     deleted_once = set()
+    quiet_run = rng.random() < 0.5
     for step in range(nops):
         live = list(model.nodes)
         r = rng.random()
@@ -461,6 +462,14 @@ def run_history(rng, viol, situations):
         M.hit("history_ops")
         before = len(viol)
         check_structure(g, model, viol, f"after op {step} {ops[-1]}")
+        if quiet_run and step < nops - 1 and rng.random() < 0.6:
+            # several edits between two queries (anything remembered by a query must not survive them)
+            situations["edits_without_query_between"] += 1
+            if len(viol) > before:
+                for v in viol[before:]:
+                    v.setdefault("witness", {})["ops"] = ops
+                break
+            continue
         fresh = build_real(model)
         if not (g.is_equal_to(fresh, only_topo=True) and fresh.is_equal_to(g, only_topo=True)):
             viol.append({"kind": "edit_not_equal_fresh", "msg": f"after op {step} {ops[-1]}: is_equal_to(fresh graph) is False"})
